@@ -66,7 +66,18 @@ EDITS = [
     ('helpers.py', '            coeff = linalg.binomial_coefficient(degree, j) * linalg.binomial_coefficient(num, (i - j))',
      '            coeff = linalg.binomial_coefficient(degree, j) * linalg.binomial_coefficient(num, (i - j + 1))',
      ['helpers.degree_elevation#by_one'], 'caught'),
+    ('abstract.py', '            if not all(chk_ctrlpts):', '            if not all(chk_kv):', ['abstract.SplineGeometry.__eq__'], 'caught'),
+    ('abstract.py', "        tol = 10 ** (-min(self._precision, getattr(other, '_precision', self._precision)))", '        tol = 10 ** (-self._precision)',
+     ['abstract.SplineGeometry.__eq__'], 'caught'),
+    ('abstract.py', '        if self.pdimension != other.pdimension:\n            return False\n        if self.rational != other.rational:\n            return False',
+     '        if self.pdimension != other.pdimension and self.rational != other.rational:\n            return False',
+     ['abstract.SplineGeometry.__eq__'], 'caught'),
+    ('abstract.py', '                    tmp = True if abs(s - o) < tol else False\n                    chk.append(tmp)\n                chk_kv.append(all(chk))',
+     '                    tmp = True if abs(s - o) <= tol else False\n                    chk.append(tmp)\n                chk_kv.append(all(chk))',
+     ['abstract.SplineGeometry.__eq__'], 'caught'),
     # ---- harmless
+    ('abstract.py', '                tmp = True if s == o else False\n                chk_degree.append(tmp)', '                chk_degree.append(s == o)',
+     ['abstract.SplineGeometry.__eq__'], 'quiet'),
     ('helpers.py', '        pts_red[r] = [0.5 * (pl + pr) for pl, pr in zip(left, right)]', '        pts_red[r] = [(pr + pl) * 0.5 for pl, pr in zip(left, right)]',
      ['helpers.degree_reduction#inverts_elevation'], 'quiet'),
     ('helpers.py', '        start = max(0, (i - num))\n        end = min(degree, i)', '        end = min(i, degree)\n        start = max((i - num), 0)',
